@@ -245,6 +245,16 @@ def x_table(nel, table):
     return 0.65 + 0.35 * tab(nel, 6, table)
 
 
+def chain_pencil(n, table, with_mass):
+    """Real symmetric positive definite tridiagonal K (and diagonal M) with simple, well separated eigenvalues."""
+    import scipy.sparse as sps
+    d = 2.0 + np.arange(n) * 0.9 + 0.6 * tab(n, 3, table)
+    o = -(0.5 + 0.3 * tab(n - 1, 4, table))
+    K = sps.diags([o, d, o], [-1, 0, 1]).tocsc()
+    M = sps.diags(1.0 + 0.4 * tab(n, 5, table)).tocsc() if with_mass else None
+    return K, M
+
+
 def pencil_variant(K, M, variant, table):
     """Derive general / complex pencils from a real symmetric FE pencil (scipy sparse in, scipy sparse out).
 
